@@ -458,6 +458,23 @@ def banner_selfdelim(tail: bytes, suffix: bytes) -> bool:
     return error2 is None and size2 == size and deep_eq(obj2, obj)
 
 
+def sample_args(rng, kwargs):
+    """differential runs: small declared lengths so that complete and truncated frames both occur"""
+    out = {}
+    for name in kwargs:
+        if name == 'a':
+            out[name] = rng.choice([rng.randrange(0, 40), rng.randrange(0, 40), 32768 + rng.randrange(0, 40), 130, 131])
+        elif name == 'b':
+            out[name] = rng.randrange(0, 8)
+        elif name in ('chunk1', 'chunk2', 'chunk3'):
+            out[name] = rng.randrange(0, 3)
+        elif name == 'number':
+            out[name] = rng.randrange(0, 256)
+        elif name in ('pay1', 'pay2', 'payload'):
+            out[name] = bytes(rng.randrange(256) for _ in range(rng.randrange(0, 2)))
+    return out
+
+
 def shards_c03(tier, seed):  # pylint: disable=unused-argument
     out = []
     body = 6 if tier == 'thorough' else 4
